@@ -4,6 +4,7 @@ import (
 	"context"
 	"fmt"
 	"math/rand/v2"
+	"os"
 	"runtime"
 	"sort"
 	"strings"
@@ -300,8 +301,16 @@ func (s *stressRound) worker(id int, rng *rand.Rand, wg *sync.WaitGroup) {
 		cancel()
 		s.syncs.Add(1)
 		if err != nil {
-			if code := errCode(err); code != "Canceled" {
+			// Without a model only error codes that no documented
+			// validation produces are judged (a worker of a dynamic
+			// queue may legitimately be refused a second size class,
+			// a cancelled call returns CANCELED, ...).
+			if code := errCode(err); code != "Canceled" && code != "InvalidArgument" && code != "ResourceExhausted" {
 				s.violate("synchronize-failed", []string{"C05"}, "Synchronize of %s failed: %v", actor, err)
+			}
+			if errCode(err) == "InvalidArgument" {
+				// This worker can never register; stop trying.
+				return
 			}
 			continue
 		}
@@ -537,7 +546,13 @@ func RunStressRound(rng *rand.Rand, p Profile, procs int, dur int) *StressResult
 
 // RunStress executes n stress rounds for property prop.
 func RunStress(r *ev.Run, prop string, n int) {
+	if v := os.Getenv("VERIF_STRESS_ROUNDS"); v != "" {
+		fmt.Sscanf(v, "%d", &n)
+	}
 	p := ProfileFor(prop)
+	if v := os.Getenv("VERIF_STRESS_PROFILE"); v != "" {
+		p = ProfileFor(v) // debugging aid: another property's world generator
+	}
 	p.Routing = false
 	for i := 0; i < n; i++ {
 		rng := r.Rand(uint64(i), 0x57e55)
